@@ -270,6 +270,32 @@ def install(ctx):
             return opt_sym(okc, Ref(Loc(Cell(Str(s.b, z3.simplify(s.lo + a), z3.simplify(s.lo + b)), 'str.get'))))
         raise Unsupported('str::get with %r' % (rng,))
 
+    @M.reg('str::split_once', 'str::rsplit_once')
+    def str_split_once(ip, pc, args, dt):
+        s_, pat = as_str(args[0]), args[1]
+        if pc['method'] == 'rsplit_once':
+            raise Unsupported('rsplit_once')
+        if isinstance(pat, S) and pat.ty == 'char':
+            c = concrete_int(pat.t)
+            if c is None or c >= 0x80:
+                raise Unsupported('split_once on a non-ASCII / symbolic char')
+            found, rel = s_.find_byte(c)
+            plen = 1
+        else:
+            pv = deref_all(pat)
+            if not (isinstance(pv, Str) and pv.concrete()):
+                raise Unsupported('split_once pattern %r' % (pat,))
+            pat_b = pv.concrete()
+            plen = len(pat_b)
+            found, rel = z3.BoolVal(False), z3.IntVal(0)
+            for q in range(len(s_.b) - plen, -1, -1):
+                hit = z3.And([s_.lo <= q, s_.hi >= q + plen] + [s_.bt(q + j) == pat_b[j] for j in range(plen)])
+                rel = z3.If(hit, q - s_.lo, rel)
+                found = z3.Or(hit, found)
+        mid = z3.simplify(s_.lo + rel)
+        pair = Agg(None, [Ref(Loc(Cell(Str(s_.b, s_.lo, mid), 'split_once.0'))), Ref(Loc(Cell(Str(s_.b, z3.simplify(mid + plen), s_.hi), 'split_once.1')))])
+        return opt_sym(z3.simplify(found), pair)
+
     @M.reg('str::char_indices', 'str::chars')
     def str_char_indices(ip, pc, args, dt):
         s_ = as_str(args[0])
